@@ -20,6 +20,29 @@ pub fn comp_name(c: CompressionType) -> &'static str {
     }
 }
 
+/// Readers other than a slice over the same bytes (all legal `Read` behaviour).
+pub fn hostile_reader<'a>(bytes: &'a [u8], kind: usize, salt: u64) -> Box<dyn std::io::Read + 'a> {
+    struct Trickle<'a>(&'a [u8], usize);
+    impl<'a> std::io::Read for Trickle<'a> {
+        fn read(&mut self, buf: &mut [u8]) -> std::io::Result<usize> {
+            let n = buf.len().min(self.1).min(self.0.len());
+            buf[..n].copy_from_slice(&self.0[..n]);
+            self.0 = &self.0[n..];
+            Ok(n)
+        }
+    }
+    use std::io::Read;
+    match kind {
+        1 => Box::new(Trickle(bytes, 1 + (salt % 7) as usize)),
+        2 => Box::new(std::io::BufReader::with_capacity(8 + (salt % 57) as usize, Trickle(bytes, 5 + (salt % 11) as usize))),
+        3 => {
+            let h = if bytes.is_empty() { 0 } else { (salt as usize * 7919) % bytes.len() };
+            Box::new(bytes[..h].chain(&bytes[h..]))
+        }
+        _ => Box::new(bytes),
+    }
+}
+
 pub fn write_binary(dom: &rbx_dom_weak::WeakDom, refs: &[Ref], c: CompressionType) -> Result<Vec<u8>, String> {
     let mut out = Vec::new();
     rbx_binary::Serializer::new()
@@ -260,6 +283,52 @@ pub fn run_case(rep: &mut Report, fmt: Fmt, seed: u64, index: u64, verbose: bool
             Ok(Ok(d)) => d,
         };
         let dump = canon::with_nan_class(nan_class, || canon::dump_decoded(&decoded));
+        // "reading the bytes back" is not tied to a slice: the same bytes through a reader that hands out a few
+        // bytes per call, a small BufReader, or two halves chained (short read at the seam) must give the same DOM
+        {
+            let kind = 1 + (index % 3) as usize;
+            let kname = ["slice", "few-bytes-per-call", "small-bufreader", "chained-halves"][kind];
+            let alt = catch(|| {
+                let rd = hostile_reader(&bytes, kind, index);
+                if fmt == Fmt::Binary {
+                    rbx_binary::from_reader(rd).map_err(|e| e.to_string())
+                } else {
+                    rbx_xml::from_reader(rd, xml_options(xml_mode).1).map_err(|e| e.to_string())
+                }
+            });
+            rep.count(&format!("reader-kinds.{}", kname));
+            match alt {
+                Ok(Ok(d2)) => {
+                    let mut dump2 = canon::with_nan_class(nan_class, || canon::dump_decoded(&d2));
+                    let mut dump1 = dump.clone();
+                    // repeated (gap-filled) ids are regenerated on every decode, by design
+                    canon::mask_unique_id(&mut dump1);
+                    canon::mask_unique_id(&mut dump2);
+                    if let Some((path, a, b)) = canon::diff(&dump1, &dump2) {
+                        violated = true;
+                        rep.violation(
+                            &format!("{}:reader-kind:{}:differs", prop, kname),
+                            &format!("the same bytes decode differently through a {} reader at {}: slice {} / there {}", kname, path, a, b),
+                            replay.clone(),
+                            detail_base.clone(),
+                        );
+                    }
+                }
+                Ok(Err(e)) => {
+                    violated = true;
+                    rep.violation(
+                        &format!("{}:reader-kind:{}:error", prop, kname),
+                        &format!("bytes that decode from a slice are rejected through a {} reader: {}", kname, e),
+                        replay.clone(),
+                        detail_base.clone(),
+                    );
+                }
+                Err(p) => {
+                    violated = true;
+                    rep.violation(&format!("{}:read:{}", prop, panic_sig(&p)), &format!("deserializer panicked through a {} reader: {}", kname, p.msg), replay.clone(), detail_base.clone());
+                }
+            }
+        }
         match canon::with_nan_class(nan_class, || expect::compare(&exp, &dump, fmt == Fmt::Binary)) {
             None => rep.count("outcome.ok"),
             Some(m) => {
